@@ -54,6 +54,10 @@ def check(ctx: Ctx):
     from ..rules import support as _support
 
     _support.compose(ctx, _col17.check_remove_overlapping, keep=("GUARDSHAPE", "EFFECT", "PAIR"))
+    _support.check_axis_loop_guards(ctx)
+    # the droplet-counting method hands the caller's options (threshold rule, minimal radius) to locate_droplets
+    _support.check_kwargs_reach_call(ctx, "droplets.image_analysis.get_length_scale", "locate_droplets")
+    ctx.expect("FORWARD", 1)
     ctx.expect("GUARDSHAPE", 4)
     ctx.expect("EFFECT", 1)
     ctx.expect("PERMINV", 1)
